@@ -41,7 +41,7 @@ def scenario(rng, qk):
             s.op(f"T {rng.choice(sorted(s.alive))} go")
         else:
             s.backend_some()
-    if rng.random() < 0.3:
+    if rng.random() < 0.45:
         s.finish_by_exit()               # BackendWorker::_exit() drains whatever was accepted
     else:
         s.finish(final=True)
